@@ -91,6 +91,10 @@ type distributedEngine struct {
 }
 
 func NewDistributedEngine(opts Opts, endpoints api.RemoteEndpoints) v1.QueryEngine {
+	// Never append in place: the caller's slice can have spare capacity which it shares
+	// with other engines (logicalplan.AllOptimizers has), and the optimizer appended
+	// for a later engine would replace the one of this engine.
+	opts.LogicalOptimizers = opts.LogicalOptimizers[:len(opts.LogicalOptimizers):len(opts.LogicalOptimizers)]
 	opts.LogicalOptimizers = append(
 		opts.LogicalOptimizers,
 		logicalplan.DistributedExecutionOptimizer{Endpoints: endpoints},
